@@ -699,6 +699,8 @@ Shape_Preserving_Reduction<D1, D2>::product_reduce(D1& d1, D2& d2) {
   if (d1.is_empty()) {
     return;
   }
+  const dimension_type old_affine_dim1 = d1.affine_dimension();
+  const dimension_type old_affine_dim2 = d2.affine_dimension();
 
   PPL_DIRTY_TEMP_COEFFICIENT(freq_n);
   PPL_DIRTY_TEMP_COEFFICIENT(freq_d);
@@ -774,6 +776,18 @@ Shape_Preserving_Reduction<D1, D2>::product_reduce(D1& d1, D2& d2) {
   // so these must be shared with the other component.
   Parma_Polyhedra_Library::Constraints_Reduction<D1, D2> cr;
   cr.product_reduce(d1, d2);
+  if (d1.is_empty()) {
+    return;
+  }
+  // The new equalities change both the constraints to be adjusted and
+  // the frequencies of their expressions, and may enable a further
+  // congruences reduction: repeat until no new equality is found.
+  // Each new equality lowers the affine dimension of the component
+  // it is added to, so that this terminates.
+  if (d1.affine_dimension() < old_affine_dim1
+      || d2.affine_dimension() < old_affine_dim2) {
+    product_reduce(d1, d2);
+  }
 }
 
 } // namespace Parma_Polyhedra_Library
